@@ -166,7 +166,7 @@ class Gen:
             base = rng.choice([0, self.end, self.end, self.end + 1, max(self.end - 1, 0), self.size, max(self.size - 1, 0), -1,
                                I64MAX, I64MAX - 1, rng.randrange(0, 200)])
             ln = rng.choice([0, 0, 1, 1, 5, 10, max(self.size - base, 0) if base >= 0 else 1, self.size, -1, I64MAX, I64MAX - max(base, 0),
-                             I64MAX - max(base, 0) + 1])
+                             min(I64MAX, I64MAX - max(base, 0) + 1)])
             if 0 <= base and 0 <= ln and base + ln <= self.size and base >= self.end:
                 self.end = base + ln
             return f'sparse_add {base} {ln}'
